@@ -518,7 +518,14 @@ class ADEV(Pytree):
         jaxpr: Jaxpr,
         consts: list[ArrayLike],
         flat_duals: list[Dual],
+        final_dual_kont: Callable[..., Any] | None = None,
+        final_pure_kont: Callable[..., Any] | None = None,
     ):
+        # `final_dual_kont` / `final_pure_kont` continue the computation after
+        # this Jaxpr (the rest of the program after a `lax.cond` whose branch
+        # this Jaxpr is). They are applied where the Jaxpr's outputs are read,
+        # i.e. INSIDE the continuation of every site of this Jaxpr, so that a
+        # site's estimator sees the whole rest of the program.
         dual_env = Environment()
         jax_util.safe_map(dual_env.write, jaxpr.constvars, Dual.tree_pure(consts))
         jax_util.safe_map(dual_env.write, jaxpr.invars, flat_duals)
@@ -540,7 +547,10 @@ class ADEV(Pytree):
                     outs = [outs]
                 jax_util.safe_map(pure_env.write, eqn.outvars, outs)
 
-            return jax_util.safe_map(pure_env.read, jaxpr.outvars)
+            outs = jax_util.safe_map(pure_env.read, jaxpr.outvars)
+            if final_pure_kont is not None:
+                return final_pure_kont(outs)
+            return outs
 
         # Dual evaluation.
         def eval_jaxpr_iterate_dual(
@@ -639,11 +649,23 @@ class ADEV(Pytree):
                                 dual_leaves,
                             )
 
+                        # Pure continuation for the computation after the cond_p.
+                        cond_pure_env = _primal_env(dual_env.copy())
+
+                        def _cond_pure_kont(vals: Any):
+                            return eval_jaxpr_iterate_pure(
+                                eqns[eqn_idx + 1 :],
+                                cond_pure_env.copy(),
+                                eqn.outvars,
+                                jtu.tree_leaves(vals),
+                            )
+
                         branch_adev_functions = list(
                             map(
                                 lambda fn: ADEV.forward_mode(
                                     jaxpr_as_fun(fn),
                                     _cond_dual_kont,
+                                    _cond_pure_kont,
                                 ),
                                 params["branches"],
                             )
@@ -714,12 +736,14 @@ class ADEV(Pytree):
             (out_dual,) = jax_util.safe_map(dual_env.read, jaxpr.outvars)
             if not isinstance(out_dual, Dual):
                 out_dual = Dual(out_dual, _zero_tangent_like(out_dual))
+            if final_dual_kont is not None:
+                return final_dual_kont(out_dual)
             return out_dual
 
         return eval_jaxpr_iterate_dual(jaxpr.eqns, dual_env, jaxpr.invars, flat_duals)
 
     @staticmethod
-    def forward_mode(f, kont=lambda v: v):
+    def forward_mode(f, kont=lambda v: v, pure_kont=None):
         def _inner(*duals: DualTree):
             primals = Dual.tree_primal(duals)
             closed_jaxpr, (flat_primals, _, out_tree) = stage(f)(*primals)
@@ -731,19 +755,32 @@ class ADEV(Pytree):
                 )(*flat_primals)
             jaxpr, consts = closed_jaxpr.jaxpr, closed_jaxpr.literals
             dual_leaves = Dual.tree_leaves(Dual.tree_pure(duals))
-            out_duals = ADEV.eval_jaxpr_adev(
+
+            # The continuations are applied inside the evaluation (where the
+            # Jaxpr's outputs are read), not to its result: the sites of `f`
+            # must see `kont` as part of their own continuation.
+            def _final_dual(out_duals):
+                out_tree_def = out_tree()
+                tree_primals, tree_tangents = Dual.tree_unzip(out_duals)
+                out_dual_tree = Dual.dual_tree(
+                    jtu.tree_unflatten(out_tree_def, tree_primals),
+                    jtu.tree_unflatten(out_tree_def, tree_tangents),
+                )
+                return kont(out_dual_tree)
+
+            _final_pure = None
+            if pure_kont is not None:
+
+                def _final_pure(outs):
+                    return pure_kont(jtu.tree_unflatten(out_tree(), outs))
+
+            return ADEV.eval_jaxpr_adev(
                 jaxpr,
                 consts,
                 dual_leaves,
+                _final_dual,
+                _final_pure,
             )
-            out_tree_def = out_tree()
-            tree_primals, tree_tangents = Dual.tree_unzip(out_duals)
-            out_dual_tree = Dual.dual_tree(
-                jtu.tree_unflatten(out_tree_def, tree_primals),
-                jtu.tree_unflatten(out_tree_def, tree_tangents),
-            )
-            vs = kont(out_dual_tree)
-            return vs
 
         # Force coercion to JAX arrays.
         def maybe_array(v):
